@@ -1,6 +1,7 @@
 """C17: escape_one_char / systemd_arg_escape / build_exclude_text / build_service_text (incl. their format!
 templates) on symbolic patterns, decoded back by an independent model of systemd's ExecStart parsing
-(word splitting, quote removal, C-style unescaping, % specifiers, $ expansion) executed symbolically."""
+(word splitting incl. the lone-semicolon command separator, quote removal, C-style unescaping, % specifiers,
+$ expansion) executed symbolically."""
 import json
 import os
 import random
@@ -81,6 +82,15 @@ class Dec:
                 i += 1
             if i >= n:
                 break
+            # command separator (systemd.service(5), "Command lines": a semicolon passed as a separate word separates command
+            # lines; config_parse_exec tests the raw text for an unquoted ';' followed by whitespace or the end), and its
+            # documented escape, a lone '\;' word
+            if self.is_(cs[i], ';') and (i + 1 >= n or self.in_(cs[i + 1], WS)):
+                raise Violation('C17', 'a lone ; word is read by systemd as a command separator', {})
+            if i + 1 < n and self.is_(cs[i], '\\') and self.is_(cs[i + 1], ';') and (i + 2 >= n or self.in_(cs[i + 2], WS)):
+                words.append([('byte', 59)])
+                i += 2
+                continue
             word = []
             quote = None
             while i < n:
